@@ -356,6 +356,41 @@ def check_C19(tier: str, v: Verdict):
                 rec["out"] = "raise"
                 rec["meta"]["exception"] = f"{type(e).__name__}: {e}"[:300]
             recs.append(rec)
+        # saving and loading BY NAME (the files land in the package directory; removed right away): several
+        # configurations under names that differ only after a dot must each come back as what was saved
+        from panoptica import NaiveThresholdMatching
+        from panoptica.utils.filepath import config_dir_by_name
+        names = {"zz_verif_tmp_iou_0.5": 0.5, "zz_verif_tmp_iou_0.75": 0.75, "zz_verif_tmp_iou": 0.25, "zz_verif_tmp.iou.v2": 1.0}
+        written = []
+        try:
+            objs = {}
+            with quiet(), drive.time_limit(240):
+                for nm, thr in names.items():
+                    objs[nm] = NaiveThresholdMatching(matching_threshold=thr)
+                    objs[nm].save_to_config_by_name(nm)
+                    d_, n_ = config_dir_by_name(nm)
+                    written.append(Path(d_) / n_)
+            for nm, thr in names.items():
+                rec = {"cls": "NaiveThresholdMatching", "params": ["-"], "orig": ["-"], "saved": ["-"], "out": "ok", "loaded": ["-"], "same_text": True,
+                       "same_results": "na", "meta": {"gen": "by-name", "file": nm, "varied": ["matching_threshold"]}}
+                try:
+                    with quiet(), drive.time_limit(240):
+                        o2 = NaiveThresholdMatching.load_from_config_name(nm)
+                        rec["same_results"] = "yes" if behaviour("NaiveThresholdMatching", objs[nm]) == behaviour("NaiveThresholdMatching", o2) \
+                            and float(o2._matching_threshold) == thr else "no"
+                except Exception as e:  # noqa: BLE001
+                    rec["out"] = "raise"
+                    rec["meta"]["exception"] = f"{type(e).__name__}: {e}"[:300]
+                recs.append(rec)
+        except Exception as e:  # noqa: BLE001   (the by-name API is gone or refuses these names: nothing to judge)
+            v.notes.append(f"by-name round trips skipped: {type(e).__name__}: {str(e)[:100]}")
+        finally:
+            pkg = Path(inspect.getfile(Panoptica_Evaluator)).parent
+            for f in list(written) + list(pkg.rglob("zz_verif_tmp*")):
+                try:
+                    Path(f).unlink()
+                except OSError:
+                    pass
     finally:
         shutil.rmtree(root, ignore_errors=True)
     v.cov["evaluations"] = len(recs)
